@@ -22,6 +22,7 @@ import time
 from ...common import CompilerError
 from .lexer import CLexer, CToken, lex_text, SourceFile
 from .utils import cnum, charval, replace_escape_codes, LineInfo
+from .eval import int_div, int_rem
 from .macro import Macro, FunctionMacro
 from .nodes import types, expressions
 
@@ -956,8 +957,8 @@ class CPreProcessor:
 
     OP_MAP = {
         "*": (11, False, operator.mul),
-        "/": (11, False, operator.floordiv),
-        "%": (11, False, operator.mod),
+        "/": (11, False, int_div),
+        "%": (11, False, int_rem),
         "+": (10, False, operator.add),
         "-": (10, False, operator.sub),
         "<<": (9, False, operator.lshift),
